@@ -220,13 +220,20 @@ class BaseSection(base.Sectionable):
         new_section = term.get_section_by_path(
             path) if path is not None else term.sections[0]
 
+        old_section = self._merged
         if self._include is not None:
             self.clean()
-        self._include = new_value
 
         # strict needs to be False, otherwise finalizing a document will
         # basically always fail.
-        self.merge(new_section, strict=False)
+        try:
+            self.merge(new_section, strict=False)
+        except Exception:
+            # Keep the previous include (resolved as it was) if the new one is refused.
+            if old_section is not None:
+                self.merge(old_section, strict=False)
+            raise
+        self._include = new_value
 
     @property
     def link(self):
@@ -261,13 +268,20 @@ class BaseSection(base.Sectionable):
 
         # raises exception if path cannot be found
         new_section = self.get_section_by_path(new_value)
+        old_section = self._merged
         if self._link is not None:
             self.clean()
-        self._link = new_value
 
         # strict needs to be False, otherwise finalizing a document will
         # basically always fail.
-        self.merge(new_section, strict=False)
+        try:
+            self.merge(new_section, strict=False)
+        except Exception:
+            # Keep the previous link (resolved as it was) if the new one is refused.
+            if old_section is not None:
+                self.merge(old_section, strict=False)
+            raise
+        self._link = new_value
 
     @property
     def definition(self):
